@@ -118,6 +118,9 @@ func checkRoundTrip(c Case) error {
 	m := c.Model
 	t := gt.Build(m)
 	text := t.Newick()
+	if again := t.Newick(); again != text {
+		return fmt.Errorf("writing the same tree twice gives different texts\n first  %s\n second %s", clip(text), clip(again))
+	}
 	want := ref.Write(m)
 	if text != want {
 		return fmt.Errorf("writer: text differs from the reference writer's\n got  %s\n want %s", clip(text), clip(want))
